@@ -33,6 +33,7 @@ static void collect(const ModelPtr &m, std::multiset<std::string> &ids)
         if (!u->id().empty()) ids.insert(u->id());
         for (size_t j = 0; j < u->unitCount(); ++j)
             if (!u->unitId(j).empty()) ids.insert(u->unitId(j));
+        if (u->isImport() && !u->importSource()->id().empty()) ids.insert(u->importSource()->id());
     }
     std::vector<ComponentPtr> st;
     for (size_t i = 0; i < m->componentCount(); ++i) st.push_back(m->component(i));
@@ -152,6 +153,8 @@ int main(int argc, char **argv)
         }
         auto u = Units::create("u");
         u->addUnit("second");
+        // sometimes the units is imported and still carries a unit child (whose id counts as present in the model)
+        if (rng() % 3 == 0) { auto is = ImportSource::create(); is->setUrl("x.cellml"); u->setImportSource(is); u->setImportReference("r"); }
         m->addUnits(u);
         if (rng() % 3 == 0) comps[0]->setId("manual1");
         auto a = Annotator::create();
@@ -161,7 +164,8 @@ int main(int argc, char **argv)
         int ne = rng() % 3;
         for (int e = 0; e < ne; ++e) {
             const char *id = autoIds[rng() % 6];
-            if (rng() % 2 && !vars.empty()) vars[rng() % vars.size()]->setId(id); else comps[rng() % comps.size()]->setId(id);
+            if (rng() % 4 == 0) u->setUnitId(0, id);
+            else if (rng() % 2 && !vars.empty()) vars[rng() % vars.size()]->setId(id); else comps[rng() % comps.size()]->setId(id);
         }
         std::multiset<std::string> before;
         collect(m, before);
